@@ -5,12 +5,13 @@
 // @h c07_children_tuple tier=both bounded=tuple-of-2
 // @h c07_children_newtype tier=both
 // @h c07_children_struct tier=both bounded=2-properties
+// @h c07_children_struct_flattened tier=both bounded=2-properties
 // @h c07_children_enum_simple tier=native bounded=1-variant
 // @h c07_children_enum_item tier=native bounded=1-variant
 // @h c07_children_enum_tuple tier=native bounded=1-variant-of-2-children
 // @h c07_children_enum_struct tier=native bounded=1-variant-of-2-children
 // @h c07_children_enum_two_variants tier=native bounded=2-variants
-// @h c07_break_cycles_literal_graphs tier=native bounded=8-literal-graphs-of-at-most-4-entries
+// @h c07_break_cycles_literal_graphs tier=native bounded=10-literal-graphs-of-at-most-4-entries
 // @h c07_children_box tier=both
 // @h c07_children_vec tier=both
 // @h c07_children_map tier=both
@@ -50,7 +51,7 @@
 //   T1  (BOUNDED, native execution only -- the traversal is outside both verifiers: Kani gives
 //       no result on two nodes, Verus rejects Vec<&mut T> / flat_map / partition / closures)
 //       after break_cycles over the whole range, the by-value containment graph (edges =
-//       by_value_children, i.e. NOT through Box / Vec / Map / Set) of each of eight literal
+//       by_value_children, i.e. NOT through Box / Vec / Map / Set) of each of ten literal
 //       graphs is acyclic: a self loop through Option, a two-struct cycle through Option, cycles
 //       through a tuple, a fixed-length array, a newtype and an enum variant, two cycles
 //       sharing a node, and cycles entered through an unnamed type (Option, array) that is
@@ -244,6 +245,12 @@ h!(
         false
     )
 );
+h!(c07_children_struct_flattened, 2, {
+    // a flattened member (any-of structs flatten Option<T> members) is contained by value too
+    let mut flat = mk_prop("f", id(), StructPropertyState::Optional);
+    flat.rename = crate::type_entry::StructPropertyRename::Flatten;
+    mk_struct("S", vec![mk_prop("a", id(), StructPropertyState::Required), flat], false)
+});
 hl!(
     c07_children_enum_simple,
     0,
@@ -422,6 +429,20 @@ fn c07_break_cycles_literal_graphs() {
             TypeEntryDetails::Option(TypeId(1)).into(),
         ],
         "cycle entered through an unnamed type shared with a type outside the cycle",
+    );
+    // Alpha { beta: Beta }, Beta { x: Beta, y: Alpha }: one node with back edges to two
+    // different ancestors whose identifiers are NOT ascending in child order
+    check_graph(
+        vec![
+            mk_struct("Alpha", vec![mk_prop("beta", TypeId(1), req())], false),
+            mk_struct("Beta", vec![mk_prop("x", TypeId(1), req()), mk_prop("y", TypeId(0), req())], false),
+        ],
+        "two back edges from one node, targets not in ascending identifier order",
+    );
+    // Ring { next: [Ring; 1] }
+    check_graph(
+        vec![mk_struct("Ring", vec![mk_prop("next", TypeId(1), req())], false), TypeEntryDetails::Array(TypeId(0), 1).into()],
+        "cycle through an array of length 1",
     );
     // the same with a fixed-length array as the shared unnamed type
     check_graph(
